@@ -637,8 +637,13 @@ instance (cfg : SrvCfg) (env : SrvEnv) (line : Bytes) (hs : List Hdr) : Decidabl
     ⟨fun ⟨a, b, c, d, e, f, g, h, i, j⟩ => ⟨a, b, c, d, e, f, g, h, i, j⟩,
      fun ⟨a, b, c, d, e, f, g, h, i, j⟩ => ⟨a, b, c, d, e, f, g, h, i, j⟩⟩
 
-/-- every extension of the response is a permessage-compress extension the accept policy approves (at most one) -/
-def responseExtensionsOk (cfg : CliCfg) (v : Bytes) : Bool := (cextLoop cfg (parseExtensions v) false).isSome
+/-- the response names no extension, or exactly one permessage-compress extension with well-formed parameters that the
+client's accept policy approves -/
+def responseExtensionsOk (cfg : CliCfg) (v : Bytes) : Bool :=
+  match parseExtensions v with
+  | [] => true
+  | [e] => isPmce e.name && pmceParamsOk false e && (cfg.accept != .denyAll)
+  | _ => false
 
 /-- RFC 6455 §4.1 (client side), for the client that sent `key` and announced `cfg.protocols` -/
 structure ValidResponse (cfg : CliCfg) (key : Bytes) (line : Bytes) (hs : List Hdr) : Prop where
